@@ -30,6 +30,8 @@ pub fn body_alphabet() -> Vec<(&'static str, MQ)> {
         ("alias_a_1", q::aliases(&["a"], vec![id(1)])),
         ("alias_a_2", q::aliases(&["a"], vec![id(2)])),
         ("alias_b_1", q::aliases(&["b"], vec![id(1)])),
+        ("nodes_id1_alias_b", q::nodes_ids_aliases(vec![id(1)], &["b"])),
+        ("nodes_id2_alias_a", q::nodes_ids_aliases(vec![id(2)], &["a"])),
         ("remove_1", q::remove(vec![id(1)])),
         ("remove_edges_from_1", q::remove_search_edges_from(id(1))),
         ("remove_values_k_1", q::remove_values(vec![K.into()], vec![id(1)])),
@@ -52,6 +54,7 @@ pub fn failing_queries() -> Vec<(&'static str, MQ)> {
         ("nodes_aliases_second_empty", q::nodes_aliases(&["x", ""])),
         ("nodes_ids_second_is_edge", q::nodes_ids_values(vec![id(1), id(-9)], vec![vec![kv(K, 7_i64)], vec![kv(K, 7_i64)]])),
         ("remove_values_second_id_missing", q::remove_values(vec![K.into()], vec![id(1), id(9)])),
+        ("nodes_ids_realias_then_empty_alias", q::nodes_ids_aliases(vec![id(1), id(2)], &["t", ""])),
         ("nodes_values_fewer_than_aliases", q::nodes_aliases_values(&["x", "y"], vec![vec![kv(K, 7_i64)]])),
     ]
 }
@@ -247,6 +250,6 @@ pub fn run(args: &Args) -> i32 {
     report.set("failing_queries_per_state", json!(failing.len()));
     report.set("variants", json!(variants.iter().map(|v| v.name()).collect::<Vec<_>>()));
     report.set("exhaustive", json!(true));
-    report.set("rule", json!("from every state reached by <= state_depth steps of H from 6 base states: every transaction body of 1..3 queries over a 18-query body alphabet followed by Err from the closure, and each of 11 single queries that fail after partial work; the order-insensitive canonical dump (elements, endpoints, property sets, aliases, index contents, node count) must be unchanged"));
+    report.set("rule", json!("from every state reached by <= state_depth steps of H from 6 base states: every transaction body of 1..3 queries over a 20-query body alphabet followed by Err from the closure, and each of 12 single queries that fail after partial work; the order-insensitive canonical dump (elements, endpoints, property sets, aliases, index contents, node count) must be unchanged"));
     report.finish()
 }
